@@ -213,23 +213,24 @@ def mechanism(label, proto, opts, res):
 
 
 def _has_dead_if(proto):
-    def graph(g):
-        used = {o.name for o in g.output}
-        for n in g.node:
+    def body(nodes, outputs):
+        used = set(outputs)
+        for n in nodes:
             used.update(n.input)
             for at in n.attribute:
                 if at.type == onnx.AttributeProto.GRAPH:
-                    for nn in _all_inputs(at.g):
-                        used.add(nn)
-        for n in g.node:
+                    used.update(_all_inputs(at.g))
+        for n in nodes:
             if n.op_type == "If" and not any(o in used for o in n.output):
                 return True
             for at in n.attribute:
-                if at.type == onnx.AttributeProto.GRAPH and graph(at.g):
+                if at.type == onnx.AttributeProto.GRAPH and body(at.g.node, [o.name for o in at.g.output]):
                     return True
         return False
 
-    return isinstance(proto, onnx.ModelProto) and graph(proto.graph)
+    if isinstance(proto, onnx.ModelProto):
+        return body(proto.graph.node, [o.name for o in proto.graph.output])
+    return body(proto.node, list(proto.output))
 
 
 def _all_inputs(g):
